@@ -47,6 +47,10 @@ func hostile(n *vkit.Node, e error, i interface{}, s fmt.Stringer, h hidden, big
 	return errors.New("orig"), 1, nil
 }
 
+type adder struct{ k int }
+
+func (a *adder) add(x int) int { return x + a.k }
+
 type wide struct {
 	X [33]int8
 	Y [3][12]uint16
@@ -308,6 +312,40 @@ func play(sc *scen) (tr []string) {
 		call("hostile/ret", func() []reflect.Value { return reflect.ValueOf(hostile).Call(hostileArgs(code(sc, 4))) })
 		b.Func(hostile).When(arg.Any(), nil, arg.Any(), arg.Any(), arg.Any(), arg.Any(), arg.Any()).Return(nil, BadStringer{4}, nil)
 		call("hostile/when", func() []reflect.Value { return reflect.ValueOf(hostile).Call(hostileArgs(code(sc, 5))) })
+	case "reapply":
+		// the same live mocker applied again and again with sibling closures of one literal, bound method values and
+		// reflect.MakeFunc callbacks (all share a code pointer), calls in between
+		fn := corpus.Fns[0] // func(int) int
+		f := fn.Fn.(func(int) int)
+		mk := func(k int) func(int) int { return func(x int) int { return x + k } }
+		for i := 0; i < 4; i++ {
+			k := int(code(sc, i)%1000) + i*1000
+			b.Func(fn.Fn).Apply(mk(k))
+			call(fmt.Sprintf("F000/closure#%d", i), func() []reflect.Value { return []reflect.Value{reflect.ValueOf(f(1))} })
+		}
+		for i := 0; i < 3; i++ {
+			o := &adder{k: int(code(sc, i+4)%1000) + i*7}
+			b.Func(fn.Fn).Apply(o.add)
+			call(fmt.Sprintf("F000/bound-method#%d", i), func() []reflect.Value { return []reflect.Value{reflect.ValueOf(f(2))} })
+		}
+		for i := 0; i < 3; i++ {
+			k := int(code(sc, i+7) % 1000)
+			cb := reflect.MakeFunc(fn.Type, func(a []reflect.Value) []reflect.Value { return []reflect.Value{reflect.ValueOf(int(a[0].Int()) * k)} }).Interface()
+			b.Func(fn.Fn).Apply(cb)
+			call(fmt.Sprintf("F000/makefunc#%d", i), func() []reflect.Value { return []reflect.Value{reflect.ValueOf(f(3))} })
+		}
+		// the same for a method mocker
+		t := corpus.Types[0]
+		m := t.Methods[0]
+		argv := t.ValArg
+		if m.Ptr {
+			argv = t.PtrArg
+		}
+		for i := 0; i < 3; i++ {
+			rec := &corpus.Rec{Res: valuesFor(outs(m.FuncType), code(sc, i)+int64(i)*31)}
+			b.Struct(argv).Method(m.Name).Apply(m.MkRepl(rec))
+			call(fmt.Sprintf("%s.%s/closure#%d", t.Name, m.Name, i), func() []reflect.Value { return m.Call(0, valuesFor(ins(m.FuncType, 1), 5)) })
+		}
 	case "hostile2":
 		var saw string
 		b.Func(hostile2).Apply(func(a [64]byte, bb [40]int, m map[string]interface{}, c chan int, f func(), u unsafe.Pointer, z complex128, w wide, e [0]int) ([64]byte, [40]int, wide) {
@@ -452,7 +490,7 @@ func TestVerifC19(t *testing.T) {
 	quiet()
 	p := &vkit.Prop{ID: "C19", Unit: "scenarios", Journal: true, New: func() interface{} { return &scen{} },
 		Gen: func(rt *rapid.T) interface{} {
-			sc := &scen{Kind: rapid.SampledFrom([]string{"fn", "fn", "variadic", "method", "iface", "panic", "hostile", "hostile", "hostile2", "hostile2"}).Draw(rt, "kind"),
+			sc := &scen{Kind: rapid.SampledFrom([]string{"fn", "fn", "variadic", "method", "iface", "panic", "hostile", "hostile", "hostile2", "hostile2", "reapply", "reapply"}).Draw(rt, "kind"),
 				K: rapid.IntRange(0, 119).Draw(rt, "k")}
 			n := rapid.IntRange(1, 6).Draw(rt, "ncodes")
 			for i := 0; i < n; i++ {
